@@ -8,6 +8,8 @@
 //!   {"a":"outerr","i":k,"k":"timeout"|"neg"|"io"|"apply"}   .. fails
 //!   {"a":"inok"} {"a":"inerr"} {"a":"addr"}   inbound result / inbound upgrade error / address change
 //!   {"a":"pend"}                       pending_requests()
+//!   {"a":"lp"} {"a":"lpset","to"} {"a":"ka"}   listen_protocol() / change its timeout via listen_protocol_mut / connection_keep_alive()
+//! "lto": timeout of the inbound protocol the handler is created with.
 use std::{task::Poll, time::Duration};
 
 use libp2p_swarm::{
@@ -45,7 +47,8 @@ fn run(sched: &Value) -> (Vec<Value>, bool) {
     let mut evs = vec![];
     let mut skipped = false;
     let cfg = OneShotHandlerConfig { outbound_substream_timeout: Duration::from_millis(to), max_dial_negotiated: max };
-    let mut h: H = OneShotHandler::new(SubstreamProtocol::new(up(0), ()), cfg);
+    let lto = sched["lto"].as_u64().unwrap_or(10_000);
+    let mut h: H = OneShotHandler::new(SubstreamProtocol::new(up(0), ()).with_timeout(Duration::from_millis(lto)), cfg);
     let mut next_req = 0i64;
     let mut next_in = 0i64;
     let mut outstanding: Vec<i64> = vec![];
@@ -121,6 +124,20 @@ fn run(sched: &Value) -> (Vec<Value>, bool) {
                 json!({"e": "addr"})
             }
             "pend" => json!({"e": "pend", "n": h.pending_requests()}),
+            "lp" => {
+                let lp = h.listen_protocol();
+                let names: Vec<String> = libp2p_core::upgrade::UpgradeInfo::protocol_info(lp.upgrade()).collect();
+                let same = lp.upgrade() == h.listen_protocol_ref().upgrade();
+                json!({"e": "lp", "protos": names, "to": lp.timeout().as_millis() as u64, "tag": lp.upgrade().tag, "ref": same})
+            }
+            "lpset" => {
+                // listen_protocol_mut: "modifications will only apply to future inbound substreams"
+                let t = op["to"].as_u64().unwrap_or(10_000);
+                let cur = h.listen_protocol_ref().clone();
+                *h.listen_protocol_mut() = cur.with_timeout(Duration::from_millis(t));
+                json!({"e": "lpset", "to": t})
+            }
+            "ka" => json!({"e": "ka", "res": h.connection_keep_alive()}),
             _ => json!({"e": "skip"}),
         });
         match r {
@@ -135,7 +152,7 @@ fn run(sched: &Value) -> (Vec<Value>, bool) {
 }
 
 fn emit(out: &mut Out, sched: &Value, evs: Vec<Value>) {
-    out.reset_with(json!({"max": sched["max"], "to": sched["to"]}), sched);
+    out.reset_with(json!({"max": sched["max"], "to": sched["to"], "lto": sched["lto"].as_u64().unwrap_or(10_000)}), sched);
     for e in evs {
         out.ev(e);
     }
@@ -216,8 +233,14 @@ pub fn main(a: Args) {
                         json!({"a": "inok"})
                     } else if x < 90 {
                         json!({"a": "inerr"})
-                    } else if x < 92 {
+                    } else if x < 91 {
                         json!({"a": "addr"})
+                    } else if x < 93 {
+                        json!({"a": "lp"})
+                    } else if x < 94 {
+                        json!({"a": "lpset", "to": ([5u64, 600, 10_000][rng.gen_range(0..3)])})
+                    } else if x < 95 {
+                        json!({"a": "ka"})
                     } else {
                         json!({"a": "pend"})
                     });
@@ -227,7 +250,8 @@ pub fn main(a: Args) {
                     ops.push(json!({"a": "poll"}));
                 }
                 ops.push(json!({"a": "pend"}));
-                let sched = json!({"max": max, "to": to, "ops": ops});
+                ops.push(json!({"a": "lp"}));
+                let sched = json!({"max": max, "to": to, "lto": ([7u64, 10_000][rng.gen_range(0..2)]), "ops": ops});
                 let (evs, _) = run(&sched);
                 emit(&mut out, &sched, evs);
             }
